@@ -42,6 +42,7 @@ class Recorder:
         self.snaps = []
         self.handled = []
         self.extra = False
+        self.raised = None
         for ev in log:
             if ev["ev"] == "call":
                 self.script.setdefault(ev["k"], []).append(ev["r"])
@@ -54,7 +55,8 @@ class Recorder:
             return None
         r = q.pop(0)
         if r["t"] == "exc":
-            raise C.make_exc(r["c"])
+            self.raised = C.make_exc(r["c"])
+            raise self.raised
         return self.vf.make(r)
 
     def snap(self, k, econtext):
@@ -219,6 +221,9 @@ def _check_failure(self, rec, err):
     from chameleon.exc import RenderError
     cname = rec["exc"]["c"]
     want = C.EXC_CLASSES.get(cname)
+    if cname == "ExpressionError":
+        from chameleon.exc import ExpressionError
+        want = ExpressionError
     if want is None:
         if cname not in [k.__name__ for k in type(err).__mro__]:
             return "exception class: spec %s, code %s" % (cname, type(err).__name__)
@@ -235,8 +240,11 @@ def _check_failure(self, rec, err):
         return None
     if not isinstance(err, RenderError):
         return "%s raised by render() is not a RenderError" % cname
-    orig = C.make_exc(cname)
-    if tuple(err.args) != tuple(orig.args):
+    calls = [ev for ev in rec["log"] if ev["ev"] == "call"]
+    scripted = bool(calls) and calls[-1]["r"].get("t") == "exc" and calls[-1]["r"].get("c") == cname \
+        and rec["log"][-1]["ev"] == "call"
+    orig = self.rec.raised if scripted else None
+    if orig is not None and type(orig) is want and tuple(err.args) != tuple(orig.args):
         return "exception args: original %r, raised %r" % (orig.args, err.args)
     site = rec["exc"].get("site")
     if site and site.get("i"):
@@ -248,10 +256,20 @@ def _check_failure(self, rec, err):
                 return "message carries no expression/location record: %r" % msg[:200]
             ex, fn, ln, col = recs[0]
             line, column = self.c.linecol(info["offset"])
-            if ex not in (info["text"], info.get("encoded")):
+            # the named text is the failing expression or, for prefixed / piped
+            # expressions, the part of it that failed -- at the position where
+            # exactly that text stands
+            src_text = info.get("encoded") or info["text"]
+            cands = []
+            for txt in {info["text"], src_text}:
+                start = txt.find(ex)
+                while ex and start >= 0:
+                    cands.append(self.c.linecol(info["offset"] + start))
+                    start = txt.find(ex, start + 1)
+            if not cands:
                 return "message names expression %r, failing expression is %r" % (ex, info["text"])
-            if (int(ln), int(col)) != (line, column):
-                return "message locates %r at (%s, %s), it stands at (%d, %d)" % (ex, ln, col, line, column)
+            if (int(ln), int(col)) not in cands:
+                return "message locates %r at (%s, %s), it stands at %s" % (ex, ln, col, cands)
     return None
 
 
